@@ -209,7 +209,8 @@ def leaf_parameters(factor, rng, seedk, dim, want_zero=False, want_pd=True, want
                     pars[s + "_mtheta"], pars[s + "_mphi"] = 0.0, 0.0
                 tags.add("mag-nonpositive")
             tags.add("mag")
-    if not want_mag and dim == "2d" and "@" not in factor and not sas.is_python(i) and i.parameters.nmagnetic > 0 and seedk % 2 == 0:
+    if not want_mag and dim == "2d" and "@" not in factor and not sas.is_python(i) and i.parameters.nmagnetic > 0 \
+            and (seedk % 7919) % 2 == 0:          # (position in the expression, not the run's seed, decides)
         # direction angles on an SLD without magnetisation (zero amplitude): they carry no meaning
         for s_ in [p.name for p in i.parameters.call_parameters if p.type == "sld" and p.name in sas.active_names(i, pars)]:
             pars[s_ + "_mtheta"] = float(rng.uniform(10, 80))
